@@ -136,8 +136,9 @@ def run_scenario(acc, sc):
                 def tr(k=k):
                     if lossy and k % 2 == 0:
                         state["seq"] += 1  # the frame before this TestRequest was lost
-                    state["sent_tr_ids"].append(f"PEER-{k}")
-                    feed("1", [(112, f"PEER-{k}")])
+                    tid = f"PEER-{k}" if k % 3 else f"cGVlcg{k}=="  # every third id looks like base64 (has '=' in the value)
+                    state["sent_tr_ids"].append(tid)
+                    feed("1", [(112, tid)])
                 loop.call_later(k * p, tr)
                 k += 1
         elif kind == "slow-replay":
